@@ -200,6 +200,8 @@ def run(chk, repo, tier):
     chk.clause('C03-p', 'segment tilts stay with their own field through products; the FFT branch sums the segment fields in one zeroed region', 3)
     from . import common as _common, c09 as _c09
     _common.mul_concat(chk, repo, 'C03-p')
+    # a monolithic and a segmented plane keep the same books: every fit adds to the recorded tilts on either branch
+    _common.tilt_slot_agreement(chk, repo, 'C03-p')
     # a segmented plane and its copies are independent (a tilt fit on a copy extends the copy's tilt list only), and the
     # tilts a field carries are folded one after the other, each fed the displacement accumulated so far
     from .c10 import plane_copy_rules as _plane_copy_rules
